@@ -123,6 +123,9 @@ func (d *Dialer) Dial(urlStr string, requestHeader fakehttp.Header) (*Conn, *fak
 	srv := fakehttp.Lookup(port)
 	if srv == nil || (c.fail != nil && c.fail(port, c.n)) {
 		fakehttp.RecordDial(fakehttp.Dial{At: simrt.Elapsed(), From: from, Port: port, Refused: true})
+		// a failing connection attempt takes (virtual) time; without it a retry loop without back-off
+		// would never let the clock advance
+		sleep(50 * time.Millisecond)
 		return nil, nil, fmt.Errorf("dial tcp %s: connect: connection refused", u.Host)
 	}
 	fakehttp.RecordDial(fakehttp.Dial{At: simrt.Elapsed(), From: from, Port: port})
@@ -172,4 +175,10 @@ func (d *Dialer) Dial(urlStr string, requestHeader fakehttp.Header) (*Conn, *fak
 	r := reg()
 	r.all = append(r.all, &Link{Client: a, Server: b, ClientSKI: from, ServerPort: port, At: simrt.Elapsed()})
 	return a, fakehttp.NewResponse(101), nil
+}
+
+func sleep(d time.Duration) {
+	done := false
+	simrt.NewTimer(d, 0, "ws-dial-latency", func() { done = true })
+	simrt.Block("ws.Dial(latency)", func() bool { return done })
 }
